@@ -6,6 +6,7 @@ CONSTANTS
   MaxEvents = 6
   Defects = {"cleanup_name", "sync_generation", "created_done"}
   LateMonitor = FALSE
+  CleanupSvc = FALSE
 INVARIANT TypeOK
 PROPERTY PropOneLink
 PROPERTY PropSync
